@@ -286,7 +286,7 @@ def rich_argv(rnd, classes):
         names = rnd.sample(classes, rnd.randint(1, min(2, len(classes))))
     back = []
     if write_sp:
-        kinds = rnd.sample(['table', 'graph', 'csv', 'k1', 'table,graph', 'a,b,c'], rnd.randint(1, 3))
+        kinds = rnd.sample(['table', 'graph', 'csv', 'k1', 'table,graph', 'a,b,c', 'table,', 'k1,,csv'], rnd.randint(1, 3))
         back = [write_sp] + kinds
     return ['prog'] + shorts + longs + names + back
 
